@@ -52,7 +52,7 @@ type Thread struct {
 	live    *int32 // goroutines of this thread's execution that have not finished unwinding
 	pk      parker
 	Sym     string // symmetry class: identical threads that have not taken their first step start in id order
-	boot    int // >0: a freshly spawned daemon that is still running to its first blocking operation (steps left)
+	boot    int    // >0: a freshly spawned daemon that is still running to its first blocking operation (steps left)
 }
 
 func (t *Thread) ID() int { return t.id }
@@ -119,25 +119,25 @@ const (
 )
 
 var (
-	active   bool
-	gen      int32
-	turn     int32 = turnNone
-	cur      *Thread
-	threads  []*Thread
-	events   []*Event
-	actT     []*Thread // unfinished threads (compacted periodically), ascending id
-	actE     []*Event  // armed events (compacted periodically)
-	nowNS    int64
-	exec     *Exec
-	prefix   []int
-	last     int = -1
-	cfg      *Config
-	staleCnt int32
-	stepCap  int
-	noBranch bool // set by Quiesce: the rest of the execution takes the canonical choice everywhere, unrecorded
-	consec   int // consecutive steps of the running thread
+	active       bool
+	gen          int32
+	turn         int32 = turnNone
+	cur          *Thread
+	threads      []*Thread
+	events       []*Event
+	actT         []*Thread // unfinished threads (compacted periodically), ascending id
+	actE         []*Event  // armed events (compacted periodically)
+	nowNS        int64
+	exec         *Exec
+	prefix       []int
+	last         int = -1
+	cfg          *Config
+	staleCnt     int32
+	stepCap      int
+	noBranch     bool // set by Quiesce: the rest of the execution takes the canonical choice everywhere, unrecorded
+	consec       int  // consecutive steps of the running thread
 	blockedSince int64
-	curLive  *int32
+	curLive      *int32
 	// LeakedExecs counts executions whose goroutines had not all unwound when the next one started.
 	LeakedExecs int
 )
@@ -157,18 +157,19 @@ type Point struct {
 }
 
 type Exec struct {
-	Points    []Point
-	Deadlock  bool
-	ForcedYields int // times the fairness rule passed over a thread that ran spinLimit consecutive steps
-	Starved   bool // Deadlock was declared because every worker stayed blocked for StarveNS of virtual time
-	Horizon   bool
-	Blocked   []string // labels of blocked non-daemon threads at deadlock
-	Panics    []string
-	Trace     []string
-	Steps     int
-	Diverged  string
-	Cost      int
-	MaxThread int
+	Points       []Point
+	Deadlock     bool
+	ForcedYields int  // times the fairness rule passed over a thread that ran spinLimit consecutive steps
+	Starved      bool // Deadlock was declared because every worker stayed blocked for StarveNS of virtual time
+	Horizon      bool
+	Blocked      []string // labels of blocked non-daemon threads at deadlock
+	Panics       []string
+	Trace        []string
+	Steps        int
+	Diverged     string
+	Cost         int
+	MaxThread    int
+	Preempted    []string // label (pending operation @ calling function) of the running thread at every deviation that switched away from it
 }
 
 func (x *Exec) Choices() []int {
@@ -544,6 +545,9 @@ func decide() int32 {
 			}
 		}
 		exec.Cost += int(cost[c])
+		if cost[c] > 0 && lastEnabled {
+			exec.Preempted = append(exec.Preempted, threads[last].label)
+		}
 		a := alt[c]
 		if a <= -1000 {
 			e := events[-1000-a]
